@@ -426,6 +426,11 @@ func (w *RW) checkEscrowInvariant(st *rwState, when string) {
 func (w *RW) Do(i int, msg sdk.Msg) (chain.TxResult, bool) {
 	pre := w.st
 	h := w.c.Height
+	// a bidder may spell its own address in upper case (valid bech32, same signer, same account): bids are escrowed
+	// per account, whatever the spelling
+	if b, ok := msg.(*rnstypes.MsgBid); ok && w.rc.Chance(0.2) {
+		b.Creator = strings.ToUpper(b.Creator)
+	}
 	res := w.c.DeliverAs(i, msg)
 	post, err := w.observe()
 	if err != nil {
